@@ -454,6 +454,10 @@ func boolp(b bool) int {
 	return 0
 }
 
+// SharedConsumerOptions, when set, is the one option slice every consumer is built from (the way a
+// receiver builds its options once and creates a consumer per stream).
+var SharedConsumerOptions []arrow_record.Option
+
 // Capture records what a stream decoded, batch by batch (C16: concurrent vs alone).
 type Capture struct {
 	Oc  []string
@@ -503,7 +507,7 @@ func RunStreamCapture(em *Emitter, tr int, st *Stream, capt *Capture) {
 		em.Emit(tr, "End", map[string]any{"oc": "producer-create-panic"})
 		return
 	}
-	c := arrow_record.NewConsumer()
+	c := arrow_record.NewConsumer(SharedConsumerOptions...)
 	wire := NewWire()
 	healthy := true
 	inputs := []any{}
